@@ -345,13 +345,13 @@ func c13Replay(impl c13Impl, hist []c13Op, ids []string, stamps []int64) (string
 	return strings.Join(ks, ";"), viols
 }
 
-func c13BFS(impl c13Impl, nStamps int, deadline time.Time) *KResult {
+func c13BFS(impl c13Impl, nStamps int, base int64, deadline time.Time) *KResult {
 	t0 := time.Now()
 	res := &KResult{Cfg: &KConfig{Name: impl.name}, Counters: map[string]int{}, Exhaustive: true}
 	ids := []string{"_IK_k1_svc_prod", "_SK_svc_prod"}
 	var stamps []int64
 	for i := 0; i < nStamps; i++ {
-		stamps = append(stamps, 1700000040+int64(i)*60)
+		stamps = append(stamps, base+int64(i)*60)
 	}
 	var ops []c13Op
 	for _, id := range ids {
@@ -433,7 +433,7 @@ func c13BFS(impl c13Impl, nStamps int, deadline time.Time) *KResult {
 
 // CheckC13 closes the table state space for every implementation.
 func CheckC13(r *Report) {
-	r.Rule = "breadth-first search over Store/Load/LoadLatest on 2 ids x N creation stamps x 4 record variants (IK-like with parent meta, SK-like, revoked, all 256 byte values + non-ASCII parent id) for the in-memory, SQL (mysql ?, postgres $n, oracle :n over a semantic fake database/sql driver enforcing PRIMARY KEY(id, created)) and DynamoDB v1/v2 metastores (over a semantic fake that is eventually consistent unless ConsistentRead is set); state = table contents, explored until no new table is reachable; after every transition every slot and every id is read back and compared with the reference table; non-trivial = distinct tables"
+	r.Rule = "breadth-first search over Store/Load/LoadLatest on 2 ids x N creation stamps (recent; and, for one implementation of each kind, all before the epoch / ending at zero) x 4 record variants (IK-like with parent meta, SK-like, revoked, all 256 byte values + non-ASCII parent id) for the in-memory, SQL (mysql ?, postgres $n, oracle :n over a semantic fake database/sql driver enforcing PRIMARY KEY(id, created)) and DynamoDB v1/v2 metastores (over a semantic fake that is eventually consistent unless ConsistentRead is set); state = table contents, explored until no new table is reachable; after every transition every slot and every id is read back and compared with the reference table; non-trivial = distinct tables"
 	n := 2
 	if r.Thorough() {
 		n = 3
@@ -445,13 +445,33 @@ func CheckC13(r *Report) {
 		byName[im.name] = im
 		names = append(names, im.name)
 	}
+	// the same search over creation stamps before and at the epoch (negative, zero), for one implementation of each kind
+	var edge []string
+	for _, im := range impls {
+		switch im.name {
+		case "memory", "sql-mysql", "sql-postgres", "dynamodb-v1-table=EncryptionKey-suffix=false", "dynamodb-v2-table=EncryptionKey-suffix=false":
+			edge = append(edge, im.name+"@pre-epoch", im.name+"@around-zero")
+		}
+	}
+	names = append(names, edge...)
 	names = append(names, "schedules")
 	r.RunScenarios(names, func(r *Report, name string) {
 		if name == "schedules" {
 			c13Sched(r)
 			return
 		}
-		kr := c13BFS(byName[name], n, r.Deadline)
+		base := int64(1700000040)
+		implName := name
+		if i := strings.Index(name, "@"); i >= 0 {
+			implName = name[:i]
+			base = -60 * int64(n) // all stamps negative
+			if name[i:] == "@around-zero" {
+				base = -60 * int64(n-1) // ..., -60, 0
+			}
+		}
+		im := byName[implName]
+		im.name = name
+		kr := c13BFS(im, n, base, r.Deadline)
 		r.AddK(kr, nil)
 	})
 	r.Rule += " || PLUS every interleaving of 2-3 concurrent Store calls for one (id, created) (and a concurrent reader) on the in-memory metastore: exactly one success, the winner's record is never replaced, reads are monotone"
